@@ -167,6 +167,17 @@ func runC16(r *Rng, n int, tier string) {
 			c.outDir = r.Pick([]string{"db", "internal/StoreDB", "DB", "gen/my_db", "Out", "pkg/v2db"})
 		}
 		c.p.Overrides = nil
+		if i%3 == 1 {
+			// query names need not be exported identifiers
+			for k := range c.p.Queries {
+				switch r.Intn(3) {
+				case 0:
+					c.p.Queries[k].Name = strings.ToLower(c.p.Queries[k].Name[:1]) + c.p.Queries[k].Name[1:]
+				case 1:
+					c.p.Queries[k].Name = "_" + c.p.Queries[k].Name
+				}
+			}
+		}
 		if r.Chance(50) {
 			c.globalOverrides = append(c.globalOverrides, `{"db_type":"text","go_type":"github.com/example/custom.Text"}`)
 			if r.Bool() {
